@@ -352,11 +352,13 @@ Definition dec_stmt (s : sexp) : option stmt :=
 Definition enc_members (ms : list (string * member)) : sexp :=
   SList (map (fun km => SList [SStr (fst km); match snd km with MObj => SList [] | MAlias t => SList [SStr t] end]) ms).
 
-Fixpoint zip5 (a b c d e : list string) : list sexp :=
-  match a, b, c, d, e with
-  | x :: a', y :: b', z :: c', u :: d', w :: e' => SList [SStr x; SStr y; SStr z; SStr u; SStr w] :: zip5 a' b' c' d' e'
-  | _, _, _, _, _ => []
+Fixpoint zip7 (a b c d e f g : list string) : list sexp :=
+  match a, b, c, d, e, f, g with
+  | x :: a', y :: b', z :: c', u :: d', w :: e', t :: f', r :: g' =>
+      SList [SStr x; SStr y; SStr z; SStr u; SStr w; SStr t; SStr r] :: zip7 a' b' c' d' e' f' g'
+  | _, _, _, _, _, _, _ => []
   end.
+Definition e_nested (e : expr) : list string := p_walk string (fun nested _ _ => if nested then "1" else "0") false [] e.
 
 Definition run_C04e (s : sexp) : sexp :=
   match s with
@@ -372,14 +374,16 @@ Definition run_C04e (s : sexp) : sexp :=
                        | _ => match py_lookup_decl d' c' n with Some p => p | None => n end
                        end);
                  SStr (p_class c' nst' l n); of_bool (wf_chain c'); of_bool (g_gap v' cg nst' l n);
-                 of_bool (match d' with DGlobal => gap_global c' n | _ => false end)]
+                 of_bool (match d' with DGlobal => gap_global c' n | _ => false end);
+                 SStr (g_canon v_fixed (if nst' then skip_classes c' else c') nst' l n);
+                 of_bool (g_gap v_fixed (if nst' then skip_classes c' else c') nst' l n)]
       | _, _, _, _, _ => bad_input
       end
   (* a whole expression: variant, chain, expression *)
   | SList [SStr "expr"; v; c; e] =>
       match dec_variant v, as_list_of dec_frame c, dec_expr 200 e with
       | Some v', Some c', Some e' =>
-          SList [SList (zip5 (e_idents e') (g_names v' c' e') (g_tags v' c' e') (p_names c' e') (p_classes c' e'));
+          SList [SList (zip7 (e_idents e') (g_names v' c' e') (g_tags v' c' e') (p_names c' e') (p_classes c' e') (e_nested e') (g_names v_fixed c' e'));
                  of_bool (wf_chain c'); of_bool (e_gap v' c' e'); of_bool (no_functions c')]
       | _, _, _ => bad_input
       end
@@ -398,7 +402,7 @@ Definition run_C04e (s : sexp) : sexp :=
           let ln := if l then [n] else [] in
           SList [of_opt SStr (resolve_v (v_skip v') false c' n); SStr (tag_name (rt_v (v_skip v') true false c' n));
                  of_opt SStr (py_lookup c' n); of_bool (wf_chain c'); SStr (g_canon v' c' false ln n); SStr (py_canonical l c' n);
-                 of_bool (gap_class_v (v_skip v') c' n); of_bool (l && g_gap v' c' false ln n)]
+                 of_bool (gap_class_v (v_skip v') c' n); of_bool (l && g_gap v' c' false ln n); of_bool (gap_class_v true c' n)]
       | _, _, _ => bad_input
       end
   | SList [SStr "attr2"; v; c; SStr root; segs] =>
